@@ -175,7 +175,8 @@ class Var:
             spell, stmt, _ = ATTRS[a]
             where = "decl"
             if stmt is not None and self.stmt_ok:
-                where = st.pick(f"{site}:attr-placement:{a}", ["decl", "stmt-after", "stmt-before"])
+                # (the last alternative: a statement after the declaration that spells the names in capitals, as legacy code does)
+                where = st.pick(f"{site}:attr-placement:{a}", ["decl", "stmt-after", "stmt-before", "stmt-after-capitals"])
             if where == "decl":
                 s = st.pick(f"{site}:attr-spelling:{a}", spell)
                 decl_attrs.append(st.kw(s.split("(")[0]) + (("(" + s.split("(", 1)[1]) if "(" in s else ""))
@@ -198,15 +199,16 @@ class Var:
             line = outside_literals(line, lambda t: t.replace(", ", ",").replace(" :: ", "::").replace(" = ", "=").replace(" => ", "=>"))
         before, after = [], []
         for a, stmt, where in stmt_attrs:
-            names = ", ".join(st.ref(n) for n in self.names)
+            ref = (lambda n: n.upper()) if where == "stmt-after-capitals" else st.ref
+            names = ", ".join(ref(n) for n in self.names)
             if a == "parameter":
-                s = st.kw("parameter") + st.pick(f"{site}:parameter-stmt-blank", [" (", "("]) + ", ".join(f"{st.ref(n)} = {self.init_of(k)}" for k, n in enumerate(self.names)) + ")"
+                s = st.kw("parameter") + st.pick(f"{site}:parameter-stmt-blank", [" (", "("]) + ", ".join(f"{ref(n)} = {self.init_of(k)}" for k, n in enumerate(self.names)) + ")"
             elif a in ("dimension", "dimension2"):
                 shp = ATTRS[a][2]["shape"]
                 form = st.pick(f"{site}:dimension-stmt-form", ["dimension :: x(s)", "dimension x(s)"])
                 sep = " :: " if "::" in form else " "
                 gap = st.pick(f"{site}:dimension-stmt-name-blank", ["", " "])
-                s = st.kw("dimension") + sep + ", ".join(f"{st.ref(n)}{gap}{shp}" for n in self.names)
+                s = st.kw("dimension") + sep + ", ".join(f"{ref(n)}{gap}{shp}" for n in self.names)
             else:
                 form = st.pick(f"{site}:attr-stmt-form:{a}", ["a :: x", "a x"])
                 kwpart = stmt.split("(")[0]
